@@ -492,3 +492,122 @@ def check_detach_repends_attached_consumers(ctx, consequence: str):
     ok = "workflow.Workflow.mark_step_pending" in reach or "workflow.Workflow.mark_consuming_steps_pending" in reach
     ctx.check(ok, sd.fq, "detaching a step re-pends the attached consumers of its outputs", consequence, "mark_step_pending reachable from Step.detach", where=ctx.where_of(sd))
 
+
+
+def check_reset_for_rerun(ctx, why: str):
+    """Step.reset_for_rerun puts a step back to what its declaration says: everything a run added is dropped or detached.
+
+    Obligations (each one unconditional, i.e. not under an `if`):
+      dynamic inputs   rows selected over dynamic_dep WHERE sink = self  -> dynamic_dep rows deleted, edges deleted
+      dynamic env      DELETE FROM env_var ... dynamic = 1
+      globs            DELETE FROM nglob WHERE node = self
+      dynamic outputs  rows selected over dynamic_dep WHERE source = self -> dynamic_dep rows deleted, edge cut, node detached
+      created steps    _detach_created_steps(): every step created by self is detached
+      static files     every file created by self in a STATIC state is detached
+      static trees     every tree created by self is detached
+      built outputs    every BUILT file created by self is marked outdated
+    """
+    import re
+
+    fi = ctx.prog.func("step.Step.reset_for_rerun")
+    stmts = ctx.sql.stmts_in(fi.fq)
+    flat = lambda t: re.sub(r"\s+", " ", t).replace(" . ", ".")  # noqa: E731
+    parents = {}
+    for n in ast.walk(fi.node):
+        for c in ast.iter_child_nodes(n):
+            parents[c] = n
+
+    def conditional(node):
+        while node in parents:
+            node = parents[node]
+            if isinstance(node, (ast.If, ast.IfExp, ast.Try)):
+                return True
+        return False
+
+    def consumer(call):
+        """('name', V) when the query result is bound to V (possibly through list()), ('loop', For) when it is iterated."""
+        node = call
+        while node in parents:
+            par = parents[node]
+            if isinstance(par, ast.Assign) and len(par.targets) == 1 and isinstance(par.targets[0], ast.Name):
+                return "name", par.targets[0].id
+            if isinstance(par, (ast.For, ast.AsyncFor)) and any(node is x for x in ast.walk(par.iter)):
+                return "loop", par
+            node = par
+        return None, None
+
+    def derived_names(v):
+        """v and the names assigned from expressions that mention v (one level, e.g. `ideps = [(r[0],) for r in v]`)."""
+        out = {v}
+        for a in ast.walk(fi.node):
+            if isinstance(a, ast.Assign) and len(a.targets) == 1 and isinstance(a.targets[0], ast.Name) and any(isinstance(x, ast.Name) and x.id == v for x in ast.walk(a.value)):
+                out.add(a.targets[0].id)
+        return out
+
+    def mentions(node, names):
+        return any(isinstance(x, ast.Name) and x.id in names for x in ast.walk(node))
+
+    def select(pred, what):
+        hits = [s_ for s_ in stmts if s_.kind == "SELECT" and pred(flat(s_.text))]
+        if len(hits) != 1:
+            ctx.bad(fi.fq, f"{what}: selection present", f"{len(hits)} matching SELECT statements: {why}", where=ctx.where_of(fi))
+            return None
+        return hits[0]
+
+    deletes_dd = [s_ for s_ in stmts if s_.kind == "DELETE" and "FROM dynamic_dep" in flat(s_.text)]
+
+    # dynamic inputs
+    s1 = select(lambda t: "dynamic_dep" in t and re.search(r"WHERE sink = \?", t) is not None, "dynamic inputs")
+    if s1 is not None:
+        kind, v = consumer(s1.site.call)
+        names = derived_names(v) if kind == "name" else set()
+        dd = [d for d in deletes_dd if len(d.site.call.args) > 1 and mentions(d.site.call.args[1], names) and not conditional(d.site.call)]
+        cut = [c for c in calls_in(fi.node) if callee_name(c) == "del_sources" and ast.unparse(c.func.value) == "self" and c.args and mentions(c.args[0], names) and not conditional(c)]
+        ctx.check(kind == "name" and bool(dd) and bool(cut), fi.fq, "dynamic inputs: their dynamic_dep rows and their edges are deleted", f"rows bound to {v!r}: dynamic_dep deleted={bool(dd)}, edges deleted={bool(cut)}: {why}", "both deleted", where=ctx.where_of(fi, s1.site.call))
+    # dynamic environment variables and globs
+    env = [s_ for s_ in stmts if s_.kind == "DELETE" and "FROM env_var" in flat(s_.text) and re.search(r"dynamic = 1", flat(s_.text)) and "node = ?" in flat(s_.text) and not conditional(s_.site.call)]
+    ctx.check(len(env) == 1, fi.fq, "dynamic environment variables are forgotten", f"{len(env)} unconditional DELETE FROM env_var ... dynamic = 1: {why}", "deleted")
+    ng = [s_ for s_ in stmts if s_.kind == "DELETE" and re.fullmatch(r"DELETE FROM nglob WHERE node = \?", flat(s_.text)) and not conditional(s_.site.call)]
+    ctx.check(len(ng) == 1, fi.fq, "glob registrations are forgotten", f"{len(ng)} unconditional DELETE FROM nglob: {why}", "deleted")
+    # dynamic outputs
+    s2 = select(lambda t: "dynamic_dep" in t and re.search(r"WHERE source = \?", t) is not None, "dynamic outputs")
+    if s2 is not None:
+        kind, v = consumer(s2.site.call)
+        names = derived_names(v) if kind == "name" else set()
+        dd = [d for d in deletes_dd if len(d.site.call.args) > 1 and mentions(d.site.call.args[1], names) and not conditional(d.site.call)]
+        loops = [l for l in ast.walk(fi.node) if isinstance(l, ast.For) and mentions(l.iter, {v}) and not conditional(l)] if kind == "name" else []
+        ok_loop = any(any(callee_name(c) == "del_sources" and c.args and "self" in ast.unparse(c.args[0]) for c in calls_in(l)) and any(callee_name(c) == "detach" for c in calls_in(l)) for l in loops)
+        ctx.check(kind == "name" and bool(dd) and ok_loop, fi.fq, "dynamic outputs: dynamic_dep rows deleted, edge cut and node detached", f"rows bound to {v!r}: dynamic_dep deleted={bool(dd)}, loop cutting the edge and detaching the node={ok_loop}: {why}", "deleted, cut, detached", where=ctx.where_of(fi, s2.site.call))
+    # created steps
+    dcs = [c for c in calls_in(fi.node) if callee_name(c) == "_detach_created_steps" and not conditional(c)]
+    ctx.check(len(dcs) == 1, fi.fq, "created steps are detached", f"{len(dcs)} unconditional calls of _detach_created_steps: {why}", "called")
+    df = ctx.prog.func("step.Step._detach_created_steps")
+    ok = False
+    for l in ast.walk(df.node):
+        if isinstance(l, ast.For):
+            q = [s_ for s_ in ctx.sql.stmts_in(df.fq) if any(s_.site.call is x for x in ast.walk(l.iter))]
+            if q and re.search(r"creator = \? AND kind = 'step'", flat(q[0].text)) and " AND NOT " not in flat(q[0].text) and any(callee_name(c) == "detach" for c in calls_in(l)):
+                ok = True
+    ctx.check(ok, df.fq, "every step created by this step is detached", f"the loop over created steps is narrowed or no longer detaches: {why}", "loop over creator = ? AND kind = 'step' with detach()")
+
+    def loop_over(pred, action, what, good):
+        s_ = select(pred, what)
+        if s_ is None:
+            return
+        kind, l = consumer(s_.site.call)
+        ok_ = kind == "loop" and not conditional(l) and any(callee_name(c) == action for c in calls_in(l))
+        ctx.check(ok_, fi.fq, what, f"the rows are not all passed to {action}(): {why}", good, where=ctx.where_of(fi, s_.site.call))
+
+    FS = ctx.prog.enum("FileState")
+    roles = ctx.prog.fold("enums", "FILE_STATES_BY_ROLE")
+    static_vals = sorted(s_.value for s_ in roles[ctx.prog.enum("FileRole").STATIC])
+    static_in = "state IN ( " + " , ".join(str(v_) for v_ in static_vals) + " )"
+    loop_over(lambda t: "creator = ?" in t and "JOIN file" in t and static_in.replace("( ", "(").replace(" )", ")").replace(" , ", ", ") in t.replace("( ", "(").replace(" )", ")").replace(" , ", ", "), "detach", "static files declared by the step are detached", "loop with detach()")
+    loop_over(lambda t: re.search(r"creator = \? AND kind = 'st'", t) is not None, "detach", "static trees declared by the step are detached", "loop with detach()")
+    s8 = [s_ for s_ in stmts if s_.kind == "SELECT" and "JOIN file" in flat(s_.text) and re.search(r"creator = \? AND state = \?", flat(s_.text))]
+    ok8 = False
+    if len(s8) == 1:
+        kind, l = consumer(s8[0].site.call)
+        bound = any(isinstance(p_, tuple) and FS.BUILT.value in p_ for p_ in s8[0].site.params) or "FileState.BUILT" in ast.unparse(fi.node)
+        ok8 = kind == "loop" and not conditional(l) and any(callee_name(c) == "mark_file_outdated" for c in calls_in(l)) and bound
+    ctx.check(ok8, fi.fq, "BUILT outputs of the step are marked outdated", f"built outputs keep their state across a rerun: {why}", "loop with mark_file_outdated()")
